@@ -215,6 +215,21 @@ impl<'a> GenC<'a> {
                     // fresh names that no library exports
                     pool.push(format!("zz{}", self.fresh));
                 }
+                // ... and names some library exports that are NOT in the set any more (an only
+                // or except below took them out, a prefix or rename respelled them): free to use
+                let gone: Vec<String> = self
+                    .libs
+                    .values()
+                    .flatten()
+                    .filter(|e| !names.contains(e))
+                    .cloned()
+                    .collect();
+                if !gone.is_empty() && self.rng.chance(1, 2) {
+                    let g = self.rng.pick(&gone).clone();
+                    if !pool.contains(&g) {
+                        pool.push(g);
+                    }
+                }
                 pool.retain(|t| !staying.contains(t));
                 self.rng.shuffle(&mut pool);
                 let mut pairs = vec![];
@@ -241,6 +256,24 @@ fn generate_c(seed: u64, quick: bool) -> Value {
     let mut rng = Rng::new(seed);
     let nseeds = if quick { 4 } else { 16 };
     let hash_seeds: Vec<u64> = (0..nseeds).map(|_| rng.next_u64() | 1).collect();
+    if rng.chance(1, 15) {
+        // two libraries export a vector of one name and equal contents: after the second
+        // declaration the name is the second library's object (seen by writing through the
+        // name and reading through each library's own accessor)
+        let mut libs: BTreeMap<String, Vec<String>> = BTreeMap::new();
+        libs.insert("(lt va)".into(), vec!["vbox".into(), "va-get".into()]);
+        libs.insert("(lt vb)".into(), vec!["vbox".into(), "vb-get".into()]);
+        let second = *rng.pick(&["(import (lt vb))", "(import (only (lt vb) vbox vb-get))", "(import (rename (lt vb) (vb-get vb-get)))"]);
+        return json!({
+            "seed": seed,
+            "hash_seeds": hash_seeds,
+            "delivery": *rng.pick(&["text", "file"]),
+            "libs": libs,
+            "decl": "(import (lt va))",
+            "decl2": second,
+            "identity_probe": true,
+        });
+    }
     let delivery = *rng.pick(&["native", "text", "file"]);
     // one or two libraries with overlapping export names
     let mut libs: BTreeMap<String, Vec<String>> = BTreeMap::new();
@@ -338,6 +371,14 @@ fn generate_c(seed: u64, quick: bool) -> Value {
     })
 }
 
+/// forms evaluated after the declarations of an identity-probe case
+const IDENTITY_PROBES: &[(&str, &str)] = &[
+    ("@0", "(import (only (scheme base) vector-set!))"),
+    ("@1", "(vector-set! vbox 0 99)"),
+    ("@2", "(vb-get)"),
+    ("@3", "(va-get)"),
+];
+
 /// exports of (lt procs) and the bundled procedure each of them is
 const PROC_EXPORTS: &[(&str, &str)] = &[("pcar", "car"), ("pcdr", "cdr"), ("pnull", "null?")];
 
@@ -354,6 +395,14 @@ fn export_value(lib: &str, export: &str) -> i64 {
 }
 
 fn lib_text(key: &str, exports: &[String]) -> String {
+    if key == "(lt va)" || key == "(lt vb)" {
+        let t = &key[4..6];
+        return format!(
+            "(define-library {k} (import (scheme base)) (export vbox {t}-get) (begin (define vbox (vector 7)) (define ({t}-get) (vector-ref vbox 0))))",
+            k = key,
+            t = t
+        );
+    }
     if key == "(lt facade)" {
         return format!("(define-library (lt facade) (import (lt one)) (export {}))", exports.join(" "));
     }
@@ -542,6 +591,7 @@ fn observe_once(case: &Value, dir: Option<std::path::PathBuf>) -> Observation {
                 let o = match &v {
                     RValue::Procedure(_) => match refs.iter().find(|r| r.1 == v) {
                         Some(r) => format!("proc:{}", r.0),
+                        None if !libs.contains_key("(lt procs)") => obs_of_value(&v).short(),
                         None => "proc:not-one-of-the-exported-procedures".to_string(),
                     },
                     _ => obs_of_value(&v).short(),
@@ -550,6 +600,19 @@ fn observe_once(case: &Value, dir: Option<std::path::PathBuf>) -> Observation {
             })
             .collect();
         out.sort();
+        if case["identity_probe"].as_bool().unwrap_or(false) {
+            for (tag, text) in IDENTITY_PROBES {
+                let r = match it.eval(text.chars()) {
+                    Ok(v) => match v.as_ref().map(|v| obs_of_value(v).short()) {
+                        None => "-".to_string(),
+                        Some(t) if t == "<unspec>" => "-".to_string(),
+                        Some(t) => t,
+                    },
+                    Err(e) => format!("error {:?}", kind_of_error(&e)),
+                };
+                out.push((tag.to_string(), r));
+            }
+        }
         Ok(out)
     });
     match r {
@@ -621,6 +684,13 @@ fn execute_c(case: &Value) -> RunResult {
         },
         None => None,
     };
+    if case["identity_probe"].as_bool().unwrap_or(false) {
+        m.world.insert(
+            "(scheme base)".into(),
+            LibEntry::Native(crate::refint::BUILTINS.iter().map(|(n, _, _)| (n.to_string(), NativeVal::Builtin(n.to_string()))).collect()),
+        );
+        res.count("probe.identity_of_an_imported_vector");
+    }
     let (program_text, wrapper) = program_and_wrapper(case, &libs);
     if let Some(w) = &wrapper {
         m.world.insert("(lt wrap)".into(), LibEntry::Def(parse_one(w).unwrap()));
@@ -655,6 +725,16 @@ fn execute_c(case: &Value) -> RunResult {
                 })
                 .collect();
             v.sort();
+            if case["identity_probe"].as_bool().unwrap_or(false) {
+                for (tag, text) in IDENTITY_PROBES {
+                    let r = match m.eval_top(&parse_one(text).unwrap()) {
+                        Ok(RV::Unspec) => "-".to_string(),
+                        Ok(rv) => obs_of_rv(&m, &rv).short(),
+                        Err(e) => format!("error {:?}", e),
+                    };
+                    v.push((tag.to_string(), r));
+                }
+            }
             v
         }
         Err(e) => {
